@@ -323,6 +323,51 @@ Proof.
   split; [exact A|]. split; [exact B|]. exact (search_box_nonempty_wide lb ub m Hm Hw).
 Qed.
 
+(* ... and in that geometry the nudges never fire at all: 1 and -1 are grid points of every mesh 2^ks, ks <= 0, the transformed
+   x0 lies in the plausible box [-1, 1] (the constructor widens the plausible box to contain x0), so the nearest grid point does too *)
+Lemma one_on_pow2_grid : forall ks : Z, ks <= 0 -> on_grid (Qpower (2 # 1) ks) 1.
+Proof.
+  intros ks Hk. exists (2 ^ (- ks)). rewrite (Zpower_Qpower 2 (- ks)) by lia.
+  change (inject_Z 2) with (2 # 1)%Q. rewrite <- Qpower_plus by (intro C; discriminate C).
+  replace (- ks + ks) with 0 by lia. reflexivity.
+Qed.
+
+Lemma force_to_grid_in_unit : forall x m, (0 < m)%Q -> on_grid m 1 -> (- (1) <= x)%Q -> (x <= 1)%Q ->
+  (- (1) <= src_force_to_grid x m)%Q /\ (src_force_to_grid x m <= 1)%Q.
+Proof.
+  intros x m Hm [z Hz] Hl Hu.
+  pose proof (force_to_grid_nearest x m z Hm) as N1. pose proof (force_to_grid_nearest x m (- z) Hm) as N2.
+  rewrite inject_Z_opp in N2.
+  setoid_replace (- inject_Z z * m)%Q with (- (1))%Q in N2 by (rewrite Hz; ring).
+  rewrite <- Hz in N1. set (g := src_force_to_grid x m) in *.
+  rewrite (Qabs_pos (1 - x)) in N1 by lra.
+  assert (E : (Qabs (- (1) - x) == x + 1)%Q).
+  { rewrite <- Qabs_opp. setoid_replace (- (- (1) - x))%Q with (x + 1)%Q by ring. apply Qabs_pos. lra. }
+  rewrite E in N2.
+  pose proof (Qle_Qabs (g - x)) as A1.
+  assert (A2 : (- (g - x) <= Qabs (g - x))%Q) by (rewrite <- Qabs_opp; apply Qle_Qabs).
+  split; lra.
+Qed.
+
+Lemma init_u0_unit_no_nudge : forall x lb ub m, (0 < m)%Q -> on_grid m 1 -> (lb <= - (1))%Q -> (1 <= ub)%Q -> (- (1) <= x)%Q -> (x <= 1)%Q ->
+  (src_init_u0 x lb ub m == src_force_to_grid x m)%Q /\ (- (1) <= src_init_u0 x lb ub m)%Q /\ (src_init_u0 x lb ub m <= 1)%Q.
+Proof.
+  intros x lb ub m Hm Hg Hl Hu Hx1 Hx2. destruct (force_to_grid_in_unit x m Hm Hg Hx1 Hx2) as [A B].
+  unfold src_init_u0. cbv zeta. set (g := src_force_to_grid x m) in *.
+  assert (E1 : Qltb g lb = false) by (apply Qltb_false; lra). rewrite E1.
+  assert (E2 : Qltb ub g = false) by (apply Qltb_false; lra). rewrite E2.
+  split; [reflexivity|]. split; assumption.
+Qed.
+
+Lemma start_no_nudge_unit :
+  forall (x lb ub : Q) (ks : Z), ks <= 0 -> (lb <= - (1))%Q -> (1 <= ub)%Q -> (- (1) <= x)%Q -> (x <= 1)%Q ->
+    let m := src_init_search_mesh_size (2 # 1) ks in
+    (src_init_u0 x lb ub m == src_force_to_grid x m)%Q /\ (- (1) <= src_init_u0 x lb ub m)%Q /\ (src_init_u0 x lb ub m <= 1)%Q.
+Proof.
+  intros x lb ub ks Hk Hl Hu Hx1 Hx2. cbv zeta. unfold src_init_search_mesh_size. cbv zeta.
+  apply init_u0_unit_no_nudge; try assumption; [apply Qpower_0_lt; reflexivity | exact (one_on_pow2_grid ks Hk)].
+Qed.
+
 (* a box narrower than a step can reject a start that is inside it: lb = 1/4 <= x = 3/8 <= ub = 1/2, mesh 1 *)
 Lemma init_u0_narrow_rejected :
   exists x lb ub m : Q, (0 < m)%Q /\ (lb <= x)%Q /\ (x <= ub)%Q /\ src_init_u0_rejected (src_init_u0 x lb ub m) lb ub = true.
